@@ -162,29 +162,44 @@ func propC04(c *Ctx) {
 
 	c.Rule("C04.R3", func() {
 		fn := childHandler(c, "FinalizeTokenDeposit")
-		o := c.Ob("C04.R3", "FinalizeTokenDeposit: refund message is NewMsgInitiateTokenWithdrawal(sender=req.To, to=req.From, amount=req.Amount)")
+		// decided at what L1 will see: the refund's withdrawal event (however the message
+		// value that carries it is built - constructor or literal)
+		o := c.Ob("C04.R3", "FinalizeTokenDeposit: the refund is announced as a withdrawal from req.To to req.From of req.Amount (denom and amount verbatim)")
 		for _, p := range c.Paths(fn, ftdPO) {
 			o.Paths++
-			for _, i := range p.Find(func(ev *Event) bool { return ev.Kind == EvEnter && isCall(ev, "NewMsgInitiateTokenWithdrawal") }) {
+			if !p.OK() || p.Panic {
+				continue
+			}
+			_, views, _ := emitted(p)
+			for _, v := range views {
+				if v.Type != "initiate_token_withdrawal" {
+					continue
+				}
 				o.Sites++
-				a := p.Events[i].Call.Args
-				if len(a) != 3 || a[0].Key() != "req.To" || a[1].Key() != "req.From" || a[2].Key() != "req.Amount" {
-					o.Fail(c.evPos(&p.Events[i]), "refund built from ("+a[0].Key()+", "+a[1].Key()+", "+a[2].Key()+")", c.Dump(p, i))
+				got := func(k string) string {
+					if v.Attrs[k] == nil {
+						return "<missing>"
+					}
+					return strip(v.Attrs[k]).Key()
+				}
+				if got("from") != "req.To" || got("to") != "req.From" || got("denom") != "req.Amount.Denom" || got("amount") != "(sdkmath.Int).String(req.Amount.Amount)" {
+					o.Fail(c.W.Pos(fn.Pos()), "refund announced as (from "+trunc(got("from"), 60)+", to "+trunc(got("to"), 60)+", "+trunc(got("amount"), 60)+" "+trunc(got("denom"), 60)+")", c.Dump(p, -1))
 				}
 			}
 		}
 		if o.Sites == 0 {
-			o.Fail(c.W.Pos(fn.Pos()), "no refund message constructed", nil)
+			o.Fail(c.W.Pos(fn.Pos()), "no refund withdrawal event on any success path", nil)
 		}
-		nm := c.Func(childTypes, "NewMsgInitiateTokenWithdrawal")
-		o2 := c.Ob("C04.R3", "NewMsgInitiateTokenWithdrawal assigns (Sender, To, Amount) from its parameters in order")
-		for _, p := range c.Paths(nm, PO{Params: []string{"a", "b", "c"}}) {
-			o2.Paths++
-			o2.Sites++
-			rv := p.RetVal[0]
-			for f, w := range map[string]string{"Sender": "a", "To": "b", "Amount": "c"} {
-				if got := project(rv, f, nil).Key(); got != w {
-					o2.Fail(c.W.Pos(nm.Pos()), "field "+f+" is "+got+", want parameter "+w, nil)
+		if nm := c.W.Func(childTypes, "NewMsgInitiateTokenWithdrawal"); nm != nil {
+			o2 := c.Ob("C04.R3", "NewMsgInitiateTokenWithdrawal assigns (Sender, To, Amount) from its parameters in order")
+			for _, p := range c.Paths(nm, PO{Params: []string{"a", "b", "c"}}) {
+				o2.Paths++
+				o2.Sites++
+				rv := p.RetVal[0]
+				for f, w := range map[string]string{"Sender": "a", "To": "b", "Amount": "c"} {
+					if got := project(rv, f, nil).Key(); got != w {
+						o2.Fail(c.W.Pos(nm.Pos()), "field "+f+" is "+got+", want parameter "+w, nil)
+					}
 				}
 			}
 		}
